@@ -178,14 +178,40 @@ class Scen:
         return t, fc, ('k=0' if k == 0 else 'k>0'), pairs[:k]
     def changes(s, o, n):
         """n valid modifications of object o (ordered, distinct types)"""
-        r = s.rnd; c = [('CKA_LABEL', b'L%d' % r.randrange(10 ** 6))]
-        if o['cls'] == 'data': c += [('CKA_APPLICATION', b'A%d' % r.randrange(1000)), ('CKA_VALUE', b'V%d' % r.randrange(10 ** 6)), ('CKA_OBJECT_ID', b'\x06\x03\x2a\x03' + bytes([r.randrange(100)]))]
-        elif o['cls'] == 'cert': c += [('CKA_ID', b'I%d' % r.randrange(1000)), ('CKA_ISSUER', b'\x30\x00'), ('CKA_SERIAL_NUMBER', b'\x02\x01' + bytes([r.randrange(100)]))]
-        else:
-            c += [('CKA_ID', b'I%d' % r.randrange(1000)), ('CKA_START_DATE', b'2024010%d' % r.randrange(1, 9)), ('CKA_END_DATE', b'2030120%d' % r.randrange(1, 9))]
-            c += [(f, r.random() < 0.5) for f in FLAGS[o['cls']]]
-            if o['cls'] in ('priv', 'pub'): c += [('CKA_SUBJECT', b'\x30\x03\x0c\x01' + bytes([65 + r.randrange(26)]))]
-        r.shuffle(c); return c[:n]
+        c = s.settable(o); s.rnd.shuffle(c); return c[:n]
+    def settable(s, o, current=None):
+        """EVERY attribute that C_SetAttributeValue / C_CopyObject accept after creation for the class of o (P11Attributes.h: ck8, and the
+        one-way ck11 ones in their permitted direction), each with a value that differs from the present one where that can be known.
+        (CKA_TRUSTED is ck10 only: P11Attribute::update answers CKR_ATTRIBUTE_READ_ONLY to C_SetAttributeValue, also for the SO.)"""
+        r = s.rnd; cls = o['cls']; cur = current or {}
+        def flag(a): return (a, (not cur[a]) if a in cur else r.random() < 0.5)
+        c = [('CKA_LABEL', b'L%d' % r.randrange(10 ** 6))]
+        if cls == 'cert': c += [('CKA_ID', b'I%d' % r.randrange(1000)), ('CKA_ISSUER', b'\x30\x02\x31' + bytes([r.randrange(100)])), ('CKA_SERIAL_NUMBER', b'\x02\x01' + bytes([r.randrange(100)]))]
+        if cls in ('secret', 'priv', 'pub'):
+            c += [('CKA_ID', b'I%d' % r.randrange(1000)), ('CKA_START_DATE', b'2024010%d' % r.randrange(1, 9)), ('CKA_END_DATE', b'2030120%d' % r.randrange(1, 9)), flag('CKA_DERIVE')]
+        if cls == 'pub': c += [('CKA_SUBJECT', b'\x30\x03\x0c\x01' + bytes([65 + r.randrange(26)]))] + [flag(a) for a in ('CKA_ENCRYPT', 'CKA_VERIFY', 'CKA_VERIFY_RECOVER', 'CKA_WRAP')]
+        if cls == 'priv':
+            c += [('CKA_SUBJECT', b'\x30\x03\x0c\x01' + bytes([65 + r.randrange(26)])), ('CKA_PUBLIC_KEY_INFO', b'\x30\x03\x02\x01' + bytes([r.randrange(100)]))] + [flag(a) for a in ('CKA_DECRYPT', 'CKA_SIGN', 'CKA_SIGN_RECOVER', 'CKA_UNWRAP')]
+        if cls == 'secret': c += [('CKA_CHECK_VALUE', b'')] + [flag(a) for a in ('CKA_ENCRYPT', 'CKA_DECRYPT', 'CKA_SIGN', 'CKA_VERIFY', 'CKA_WRAP', 'CKA_UNWRAP')]
+        if cls in ('priv', 'secret'):      # one-way attributes, in the direction that is allowed
+            c += [('CKA_SENSITIVE', True), ('CKA_EXTRACTABLE', False)]
+            if not cur.get('CKA_WRAP_WITH_TRUSTED', False): c += [('CKA_WRAP_WITH_TRUSTED', True)]
+        return c
+    def set_sweep(s):
+        """systematic part: for every object of the population and EVERY attribute that is settable after creation, that attribute alone (with a
+        new value) in front of a rejected entry - C_SetAttributeValue on the object, and C_CopyObject for a few sources"""
+        out = []; n = 0; bools = sorted({a for fl in FLAGS.values() for a in fl} | {'CKA_VERIFY_RECOVER', 'CKA_SIGN_RECOVER', 'CKA_WRAP_WITH_TRUSTED', 'CKA_SENSITIVE', 'CKA_EXTRACTABLE'})
+        for o in list(s.objs.values()):
+            if o.get('fixed') or not s.visible(o): continue
+            rv, vals = s.x.getattrs(s.rw, o['h'], bools, cap=8); cur = {a: v != b'\x00' for a, v in vals.items() if v is not None and len(v) == 1}
+            for a, v in s.settable(o, cur):
+                n += 1; fc, bad = s.sure_defect(n)
+                sess = (s.rw, s.rw2)[n % 2] if o['tok'] else s.sessions[n % 3]
+                out.append(('C_SetAttributeValue', dict(s=sess, o=o['h'], tmpl=s.T([(a, v)]) + [bad]), dict(fclass=fc + ':after-' + a, pos='k>0', kind=KIND[(o['tok'], o['priv'])], target=o, prefix=[(a, v)])))
+                if o['name'] in ('aes-tp', 'aes-sP', 'rsa-priv', 'rsa-pub', 'cert-tp'):
+                    tok = bool(n % 2)
+                    out.append(('C_CopyObject', dict(s=(s.rw, s.rw2)[n % 2], o=o['h'], tmpl=s.T([('CKA_TOKEN', tok), (a, v)]) + [bad]), dict(fclass=fc + ':after-' + a, pos='k>0', kind=KIND[(tok, o['priv'])])))
+        return out
     def pick(s, pred=lambda o: True):
         c = [o for o in s.objs.values() if pred(o)]
         return s.rnd.choice(c) if c else None
@@ -463,6 +489,8 @@ class Scen:
             pre = {a: s.x.A(a, v) for a, v in meta.get('prefix', [])}
             def applied(ch):
                 for a, (p, q) in ch.items():
+                    if a == '(rv)': continue
+                    if q is None and ('CKA_SENSITIVE' in pre or 'CKA_EXTRACTABLE' in pre): continue   # a value that became unreadable because the prefix made the key sensitive / unextractable
                     if a not in pre: return False
                 return True
             if fn == 'C_SetAttributeValue' and pre and all(applied(d[3]) for d in ad if d[0] == 'changed'): out = 'prefix-applied'
@@ -474,8 +502,8 @@ class Scen:
         return False
     def run(s, ncalls):
         part = s.part; names = [g for g, _ in s.GENS]; wts = [w for _, w in s.GENS]
-        before = s.snap(); queue = s.sweep() if s.job.get('sweep') else []
-        part.count('sticky_sweep_calls', len(queue))
+        before = s.snap(); queue = s.sweep() if s.job.get('sweep') == 'sticky' else s.set_sweep() if s.job.get('sweep') == 'set' else []
+        part.count('%s_sweep_calls' % (s.job.get('sweep') or 'no'), len(queue))
         for i in range(ncalls + len(queue)):
             s.sticky = False
             if queue: built = queue.pop(0)
@@ -656,7 +684,9 @@ def run(ctx):
     per = 60; nfile = ctx.q(30, 330); ndb = ctx.q(8, 170)
     for i in range(nfile + ndb):
         # the first file scenarios and the first db scenario start with the systematic sticky-attribute sweep (then fewer random calls)
-        sweep = i < ctx.q(2, 6) or nfile <= i < nfile + ctx.q(1, 3)
+        # and the next ones with the settable-attribute sweep (each settable attribute alone in front of a rejected entry)
+        a, b = ctx.q(2, 6), ctx.q(1, 3)
+        sweep = 'sticky' if (i < a or nfile <= i < nfile + b) else 'set' if (i < 2 * a or nfile <= i < nfile + 2 * b) else None
         jobs.append(dict(base, what='scenario', seed=ctx.seed * 1000003 + i, backend='file' if i < nfile else 'db', ncalls=20 if sweep else per, sweep=sweep))
     # fault enumeration: every FS operation of every call kind (file; db in thorough), EIO (and ENOSPC in thorough)
     fj = []
